@@ -56,8 +56,8 @@ pub fn pick_threshold(s: &mut Stream, prof: &Profile) -> (f64, &'static str) {
 }
 
 pub fn check(bytes: &[u8], _ctx: &Ctx) -> Verdict {
-    let mut s = Stream::new(bytes);
-    let built = gen_built(&mut s, &GenCfg::small());
+    let (mut s, mut gs) = crate::stream::split(bytes, 128);
+    let built = gen_built(&mut gs, &GenCfg::small());
     let game = match build_valid("C18", &built.tree) {
         Ok(g) => g,
         Err(v) => return v,
@@ -171,8 +171,8 @@ pub fn check(bytes: &[u8], _ctx: &Ctx) -> Verdict {
 }
 
 pub fn describe(bytes: &[u8]) -> Value {
-    let mut s = Stream::new(bytes);
-    let built = gen_built(&mut s, &GenCfg::small());
+    let (mut s, mut gs) = crate::stream::split(bytes, 128);
+    let built = gen_built(&mut gs, &GenCfg::small());
     json!({"family": built.family, "game": built.tree.brief(), "note": "profile source and threshold follow in the stream"})
 }
 
@@ -188,5 +188,6 @@ pub fn prop() -> Prop {
         assumptions: &["idempotence is an exact-arithmetic claim; not asserted within 1e-9 relative of a probability"],
         post: None,
         watchdog_s: 60,
+        shrink_iters: 3000,
     }
 }
